@@ -47,6 +47,24 @@ pub fn run_inner(case: &Case, out: &mut Outcome) -> Result<(), Bad> {
             count_check("HashMap len after extend", "C01", m.len(), n)?;
             count_check("HashMap iter().count()", "C09", m.iter().count(), n)?;
             count_check("HashMap keys().len()", "C09", m.keys().len(), n)?;
+            let mut stepped = 0usize;
+            let mut it = m.iter();
+            while it.next().is_some() {
+                stepped += 1;
+            }
+            count_check("HashMap iter() advanced by next()", "C09", stepped, n)?;
+            let mut stepped = 0usize;
+            for _ in m.values_mut() {
+                stepped += 1;
+            }
+            count_check("HashMap values_mut() in a for loop", "C09", stepped, n)?;
+            let c = m.clone();
+            count_check("len of a cloned HashMap", "C11", c.len(), n)?;
+            let mut stepped = 0usize;
+            for _ in c {
+                stepped += 1;
+            }
+            count_check("HashMap into_iter() in a for loop", "C09", stepped, n)?;
             let mut s = 0u64;
             m.values().for_each(|v| s = s.wrapping_add(*v));
             if s != (n as u64 * (n as u64 - 1)) / 2 {
@@ -92,6 +110,11 @@ pub fn run_inner(case: &Case, out: &mut Outcome) -> Result<(), Bad> {
             let mut s: BSet = (0..n as u32).map(|i| ArrKey { id: i, tag: 0 }).collect();
             count_check("HashSet len after collect", "C07", s.len(), n)?;
             count_check("HashSet iter().count()", "C09", s.iter().count(), n)?;
+            let mut stepped = 0usize;
+            for _ in &s {
+                stepped += 1;
+            }
+            count_check("HashSet iter() in a for loop", "C09", stepped, n)?;
             let mut calls = 0usize;
             s.retain(|k| {
                 calls += 1;
@@ -113,12 +136,39 @@ pub fn run_inner(case: &Case, out: &mut Outcome) -> Result<(), Bad> {
             }
         }
         _ => {
+            // a probe chain longer than 256 buckets: several hundred elements under one hash
+            {
+                let h0 = plan.hash(0x5eed);
+                let m = 260 + (case.h("n_extra") % 300) as u32;
+                let mut lc: BTable = BTable::new_in(CheckAlloc);
+                for i in 0..m {
+                    lc.insert_unique(h0, (i, i as u64), |_| h0);
+                }
+                let mut seen: Vec<u32> = lc.iter_hash(h0).map(|e| e.0).collect();
+                let yielded = seen.len();
+                seen.sort_unstable();
+                seen.dedup();
+                if yielded != m as usize || seen.len() != m as usize {
+                    bad!("C06", "iter_hash-long-chain", "{m} elements under one hash: iter_hash yields {yielded} items, {} distinct", seen.len());
+                }
+                count_check("iter_hash().count() on a long chain", "C09", lc.iter_hash(h0).count(), m as usize)?;
+                for i in [0, m / 2, m - 1] {
+                    if lc.find(h0, |e| e.0 == i).is_none() {
+                        bad!("C06", "big-lookup", "element {i} of a {m}-element chain under one hash not found");
+                    }
+                }
+            }
             let mut t: BTable = BTable::new_in(CheckAlloc);
             for i in 0..n as u32 {
                 t.insert_unique(plan.hash(i as u64), (i, i as u64), |e| plan.hash(e.0 as u64));
             }
             count_check("HashTable len", "C06", t.len(), n)?;
             count_check("HashTable iter().count()", "C09", t.iter().count(), n)?;
+            let mut stepped = 0usize;
+            for _ in t.iter_mut() {
+                stepped += 1;
+            }
+            count_check("HashTable iter_mut() in a for loop", "C09", stepped, n)?;
             for probe in [0u32, 65_535, 65_536, n as u32 - 1].into_iter().filter(|p| (*p as usize) < n) {
                 if t.find(plan.hash(probe as u64), |e| e.0 == probe).is_none() {
                     bad!("C06", "big-lookup", "element {probe} of {n} not found");
